@@ -11,6 +11,15 @@ ASSUMPTIONS = ["the real zkinterface backend code (generic, bellman, bulletproof
                "what the real library would produce",
                "the Lean model is the MESSAGE TREE (Model/Zkif.lean): the FlatBuffers byte layout (vtables, alignment, offsets, size "
                "prefix) is not modelled in Lean and is covered by the reader only"]
+ASSUMPTIONS += ["a file may hold SEVERAL ConstraintSystem messages (zkinterface allows that): the reader accepts any number of them after the "
+                "header (and witness) and the clause is `the constraint messages, concatenated in file order, decode to exactly the traced "
+                "constraints`; for the comparison with the model (which, like the pinned writer, emits one message) consecutive constraint "
+                "messages of the decoded file are merged",
+                "traces go through the backend's own entry points pubval()/privval()/add_constraint(); every run includes a few LARGE traces "
+                "(1001-2600 constraints, around and well above 1000/2000) per field configuration and staged traces (2-4 exports of one growing "
+                "trace in one process and one directory: stages adding wires and constraints / only wires / only constraints / nothing), "
+                "judged after every export; a file that is absent after prove(), or byte-identical to the previous export although the trace "
+                "grew, is a violation (files-not-written / stale-files), never an infrastructure error"]
 PARTIAL = ["tree level: all clauses proved; byte level: reader-validated only"]
 BACKENDS = {"zkinterface": "zkif_p", "zkifbellman": "bellman_p", "zkifbulletproofs": "bulletproofs_p"}
 
@@ -20,10 +29,21 @@ def vars_str(vs, with_bl):
     return ids, vals
 
 
+def merged(msgs):
+    """consecutive constraint messages merged into one (their concatenation is what they mean)"""
+    out = []
+    for m in msgs:
+        if m[0] == "constraints" and out and out[-1][0] == "constraints":
+            out[-1] = ("constraints", list(out[-1][1]) + list(m[1]))
+        else:
+            out.append(m)
+    return out
+
+
 def file_str(buf, BL):
     """canonical text of a decoded file, same shape as lean/PysnarkModel/Driver/ProtoZkif.lean"""
     out = ""
-    for m in fbread.messages(buf):
+    for m in merged(fbread.messages(buf)):
         if m[0] == "header":
             ids, vals = vars_str(m[1], True)
             out += f"H(ids={ids};vals={vals};bl={m[1][0][2] if m[1] else BL};free={m[2]};max={m[3]})"
@@ -41,15 +61,16 @@ def check_files(comp, circ, p, pubs, privs, cons):
     """the clauses of C11 on the decoded trees; returns list of (clause, message)"""
     bad = []
     n, m_ = len(pubs), len(privs)
-    cm = fbread.messages(comp); ci = fbread.messages(circ)
+    cm_raw = fbread.messages(comp); ci_raw = fbread.messages(circ)
+    cm = merged(cm_raw); ci = merged(ci_raw)
     if [x[0] for x in cm] != ["header", "witness", "constraints"]:
-        bad.append(("messages", f"computation.zkif holds {[x[0] for x in cm]}"))
+        bad.append(("messages", f"computation.zkif holds {[x[0] for x in cm_raw]}"))
     if [x[0] for x in ci] != ["header", "constraints"]:
-        bad.append(("circuit-has-witness" if any(x[0] == "witness" for x in ci) else "messages", f"circuit.zkif holds {[x[0] for x in ci]}"))
+        bad.append(("circuit-has-witness" if any(x[0] == "witness" for x in ci) else "messages", f"circuit.zkif holds {[x[0] for x in ci_raw]}"))
     if bad:
         return bad
     BL = (p.bit_length() + 7) // 8
-    for name, msgs in (("computation", cm), ("circuit", ci)):
+    for name, msgs, raw in (("computation", cm, cm_raw), ("circuit", ci, ci_raw)):
         h = msgs[0]
         if [i for i, _, _ in h[1]] != list(range(1, n + 1)): bad.append(("header-ids", f"{name}: instance ids {[i for i, _, _ in h[1]][:6]}"))
         if [v for _, v, _ in h[1]] != [x % p for x in pubs]: bad.append(("header-values", f"{name}: instance values differ from the public values mod p"))
@@ -59,7 +80,11 @@ def check_files(comp, circ, p, pubs, privs, cons):
         cs = msgs[-1][1]
         want = [[[(k if k >= 0 else n - k, v % p) for k, v in l] for l in c] for c in cons]
         got = [[[(i, v) for i, v, _ in l] for l in c] for c in cs]
-        if got != want: bad.append(("constraint-decode", f"{name}: decoded constraints differ from the traced ones"))
+        if got != want:
+            nmsg = sum(1 for x in raw if x[0] == "constraints")
+            k = next((i for i, (a, b) in enumerate(zip(got, want)) if a != b), min(len(got), len(want)))
+            bad.append(("constraint-decode", f"{name}: the {nmsg} constraint message(s), concatenated, hold {len(got)} constraints, {len(want)} were "
+                                             f"traced; first difference at constraint {k}"))
         if any(v >= p for c in cs for l in c for _, v, _ in l): bad.append(("canonical-coefficient", f"{name}: coefficient not below p"))
     w = cm[1]
     if [i for i, _, _ in w[1]] != list(range(n + 1, n + m_ + 1)): bad.append(("witness-ids", f"witness ids {[i for i, _, _ in w[1]][:6]}"))
@@ -78,13 +103,71 @@ def check_files(comp, circ, p, pubs, privs, cons):
     return bad
 
 
+def large_traces(rnd, p, sizes, tag):
+    """directly installed traces with MORE THAN 1000 constraints (sparse: 0-2 terms per linear combination, so they stay fast)"""
+    out = []
+    for i, nc in enumerate(sizes):
+        npub = rnd.randrange(1, 4); npriv = rnd.randrange(2, 8)
+        pubs = [c10.rand_val(rnd, p) for _ in range(npub)]; privs = [c10.rand_val(rnd, p) for _ in range(npriv)]
+        def lc():
+            ks = rnd.sample(range(-npriv, npub + 1), rnd.randrange(0, 3))
+            return ",".join(f"{k}:{rnd.choice([1, -1, 2, p - 1, rnd.randrange(-p, 2 * p)])}" for k in ks)
+        cons = ";".join("#".join(lc() for _ in range(3)) for _ in range(nc))
+        out.append(f"JT|{tag}{i}|{p}|{','.join(map(str, pubs))}|{','.join(map(str, privs))}|{cons}")
+    return out
+
+
+def size_class(n):
+    return "0" if n == 0 else "1-1000" if n <= 1000 else "1001-2000" if n <= 2000 else "above-2000"
+
+
+def judge(ex, be, line, p, tf, files, model_line, stage=None, prev_files=None, prev_trace=None):
+    """one export: decoded trees vs the model's, then the clause checks; returns list of (clause, message)"""
+    pubs, privs, cons = c10.parse_trace(tf)
+    pp = int(tf[2])
+    BL = (pp.bit_length() + 7) // 8
+    comp_hex, circ_hex = files.get("computation.zkif"), files.get("circuit.zkif")
+    if "!raised" in files:
+        bad = [("export-raised", "prove() raised " + bytes.fromhex(files["!raised"]).decode(errors="replace")[:200])]
+        impl = f"{tf[0]}|export raised"
+    elif comp_hex is None or circ_hex is None:
+        missing = [n for n, h in (("computation.zkif", comp_hex), ("circuit.zkif", circ_hex)) if h is None]
+        bad = [("files-not-written", f"after prove() there is no {' / '.join(missing)} in the working directory")]
+        impl = f"{tf[0]}|not written"
+    else:
+        comp = bytes.fromhex(comp_hex); circ = bytes.fromhex(circ_hex)
+        try:
+            impl = f"{tf[0]}|{file_str(comp, BL)}|{file_str(circ, BL)}"
+            bad = check_files(comp, circ, pp, pubs, privs, cons)
+            if pp != p:
+                bad.append(("modulus", f"backend {be} works modulo {pp}, its source names {p}"))
+            from .c13 import CURVE
+            if pp != CURVE[be]:
+                bad.append(("field", f"field maximum {pp - 1} + 1 is not the scalar-field order of the curve of {be}"))
+        except Exception as e:
+            impl = f"{tf[0]}|undecodable: {type(e).__name__}: {e}"
+            bad = [("malformed", f"{type(e).__name__}: {e}")]
+        if bad and prev_files is not None and prev_trace != tf[3:6] and \
+                (comp_hex, circ_hex) == (prev_files.get("computation.zkif"), prev_files.get("circuit.zkif")):
+            bad = [("stale-files", "the trace grew since the previous export, prove() was called again, and both files are byte-identical "
+                    "to the previous export (" + bad[0][0] + ": " + bad[0][1] + ")")]
+    if impl != model_line:
+        ex.disagreements.append({"backend": be, "line": line[:1500], "stage": stage, "impl": impl[:400], "model": model_line[:400]})
+    else:
+        ex.traces_validated += 1
+    return bad, circ_hex
+
+
 def explore(ctx, extended=False, focus=None):
+    import json
     ex = Exploration()
-    ex.rule = ("for each of the three field configurations: programs traced on the real backend then prove(); traces installed directly "
-               "with extreme witness values/coefficients; pairs of traces with equal public values and shape but different private "
+    ex.rule = ("for each of the three field configurations: programs traced on the real backend then prove(); traces installed through "
+               "pubval/privval/add_constraint with extreme witness values/coefficients; a few large traces (1001-2600 constraints); staged "
+               "traces (2-4 exports of one growing trace in one process: wires+constraints / wires only / constraints only / nothing new); "
+               "pairs of traces with equal public values and shape but different private "
                "values (circuit.zkif must be byte-identical); decoded trees vs the Lean model and vs the clause checks; distinct = "
                "(backend, source, #pub, #priv, #constraints, value classes)")
-    nprog = ctx.n(120, 3200); ndir = ctx.n(120, 3200)
+    nprog = ctx.n(120, 3200) * (2 if extended else 1); ndir = ctx.n(120, 3200) * (2 if extended else 1)
     for be, key in BACKENDS.items():
         p = ctx.consts[key] if ctx.consts and ctx.consts.get(key) else None
         w = common.Worker(be, "worker_files.py")
@@ -94,7 +177,7 @@ def explore(ctx, extended=False, focus=None):
                 p = int(w.run(["M|m"])[0].split("|")[1])
             cases = progs.generate(ctx.rnd, nprog, f"c11{be}_", mix=[(4, progs.op_case), (2, progs.chain_case), (1, progs.array_case)], p=p)
             lines = [c.line() for c in cases]
-            direct = [l.replace(f"|{common.BN128}|", f"|{p}|") for l in c10.direct_traces(ctx.rnd, ndir)]
+            direct = c10.direct_traces(ctx.rnd, ndir, p=p)
             # twins: same pubs and constraints, other private values
             twins = []
             for l in direct[:ndir // 2]:
@@ -103,47 +186,61 @@ def explore(ctx, extended=False, focus=None):
                 f[4] = ",".join(str(ctx.rnd.randrange(-p, 2 * p)) for _ in privs)
                 f[1] = f[1] + "t"
                 twins.append("|".join(f))
-            outs = w.run(lines + direct + twins)
+            rnd = ctx.rnd
+            sizes = [rnd.choice([1001, 1002, 1100]), rnd.randrange(1100, 2000), rnd.choice([2001, rnd.randrange(2001, 2600)])]
+            if ctx.thorough() or extended:
+                sizes += [1000, 2000, 3001, rnd.randrange(3000, 5000)]
+            large = large_traces(rnd, p, sizes, "big")
+            staged = c10.staged_traces(rnd, ctx.n(40, 800) * (2 if extended else 1), p=p)
+            kinds_of = {l.split("|")[1]: k for l, k in staged}
+            all_lines = lines + direct + twins + large + [l for l, _ in staged]
+            outs = w.run(all_lines)
         finally:
             w.close()
         zl = []; recs = []
-        for line, o in zip(lines + direct + twins, outs):
+        for line, o in zip(all_lines, outs):
             f = o.split("|")
-            if f[1] == "harness-error":
+            if len(f) < 4 or f[1] == "harness-error":
                 raise common.Infra(o[:600])
-            files = dict(x.split("=", 1) for x in f[6:])
-            recs.append((line, f, files))
+            if line.startswith("JS|"):
+                prev_files = prev_trace = None
+                for k, st in enumerate(json.loads(o.split("|", 3)[3])):
+                    tf = [f[0], f[1], f[2]] + st["trace"].split("|")
+                    recs.append((line, "staged", tf, st["files"], k + 1, prev_files, prev_trace, kinds_of[f[0]][k]))
+                    zl.append(f"Z|{f[0]}|{f[2]}|{st['trace']}")
+                    prev_files, prev_trace = st["files"], tf[3:6]
+                continue
+            files = dict(x.split("=", 1) for x in f[6:] if "=" in x)
+            recs.append((line, "direct" if line.startswith("JT") else "program", f, files, None, None, None, None))
             zl.append(f"Z|{f[0]}|{f[2]}|{f[3]}|{f[4]}|{f[5]}")
         ml = common.lean_driver(zl)
         circ_by_id = {}
-        for (line, f, files), m in zip(recs, ml):
+        last_program_line = None
+        for (line, src, tf, files, stage, prev_files, prev_trace, skind), m in zip(recs, ml):
             ex.evaluations += 1
-            pubs, privs, cons = c10.parse_trace(f)
-            pp = int(f[2])
-            src = "direct" if line.startswith("JT") else "program"
-            ex.count(f"backend:{be}"); ex.count(f"source:{src}")
+            pubs, privs, cons = c10.parse_trace(tf)
+            pp = int(tf[2])
+            ex.count(f"backend:{be}"); ex.count(f"source:{src}"); ex.count(f"constraints:{size_class(len(cons))}")
+            if stage:
+                ex.count(f"stage:{'first' if stage == 1 else skind}")
             ex.distinct.add((be, src, len(pubs), len(privs), len(cons), tuple(sorted({c10.value_class(v, pp) for v in pubs + privs}))))
-            comp = bytes.fromhex(files.get("computation.zkif", "")); circ = bytes.fromhex(files.get("circuit.zkif", ""))
-            circ_by_id[f[0]] = circ
-            BL = (pp.bit_length() + 7) // 8
-            try:
-                impl = f"{f[0]}|{file_str(comp, BL)}|{file_str(circ, BL)}"
-                bad = check_files(comp, circ, pp, pubs, privs, cons)
-                if pp != p:
-                    bad.append(("modulus", f"backend {be} works modulo {pp}, its source names {p}"))
-                from .c13 import CURVE
-                if pp != CURVE[be]:
-                    bad.append(("field", f"field maximum {pp - 1} + 1 is not the scalar-field order of the curve of {be}"))
-            except Exception as e:
-                impl = f"{f[0]}|undecodable: {type(e).__name__}: {e}"
-                bad = [("malformed", f"{type(e).__name__}: {e}")]
-            if impl != m:
-                ex.disagreements.append({"backend": be, "line": line[:1500], "impl": impl[:400], "model": m[:400]})
-            else:
-                ex.traces_validated += 1
+            bad, circ_hex = judge(ex, be, line, p, tf, files, m, stage, prev_files, prev_trace)
+            if stage is None:
+                circ_by_id[tf[0]] = circ_hex
             for clause, msg in bad:
-                ex.violations.append(Violation({"clause": clause, "backend": be}, f"{be}: {clause}: {msg}", {"backend": be, "line": line[:4000]}))
-            if len(ex.samples) < 4 and cons:
+                sig = {"clause": clause, "backend": be, "constraints": size_class(len(cons))}
+                payload = {"backend": be, "line": line if line.startswith(("JT|big", "JS|")) else line[:4000]}
+                if stage:
+                    sig["export"] = "first" if stage == 1 else "repeated:" + skind
+                    payload["stage"] = stage
+                if clause in ("files-not-written", "export-raised", "stale-files"):
+                    sig["dev"] = clause
+                if clause in ("files-not-written", "export-raised") and src == "program" and last_program_line:
+                    payload["previous_line_in_the_same_process"] = last_program_line[:5000]
+                ex.violations.append(Violation(sig, f"{be}: {clause}: {msg}" + (f" [export #{stage} of a staged trace: {skind}]" if stage else ""), payload))
+            if src == "program":
+                last_program_line = line
+            if len(ex.samples) < 4 and cons and len(line) < 2000:
                 ex.samples.append({"backend": be, "line": line[:400]})
         for tid, circ in circ_by_id.items():
             if tid.endswith("t") and tid[:-1] in circ_by_id and circ_by_id[tid[:-1]] != circ:
@@ -157,7 +254,8 @@ def replay(ctx, payload):
     r = payload["replay"]
     w = common.Worker(r["backend"], "worker_files.py")
     try:
-        print(w.run([r["line"]])[0][:3000])
+        for l in ([r["previous_line_in_the_same_process"]] if "previous_line_in_the_same_process" in r else []) + [r["line"]]:
+            print(w.run([l])[0][:3000])
     finally:
         w.close()
     return 0
